@@ -270,19 +270,23 @@ def judgeEnc (st : Stack) (k : Kind) (ks : String) (ct ot : List String) : Optio
   let h ← parseHdr st f
   let m ← parseBody st k f
   -- model
+  let menc := modelEncode st k h m
   let (model, cls) :=
-    match modelEncode st k h m with
+    match menc with
     | none => ("enc=err", "err")
     | some data =>
       match modelDecode st k data with
       | .ok (h', m') => (s!"enc=ok data={Hex.encode data} dec=ok g={render st k h' m'}", "ok")
       | .reject => (s!"enc=ok data={Hex.encode data} dec=rej", "undecodable")
       | .panic => (s!"enc=ok data={Hex.encode data} dec=panic", "panic")
-  -- spec
+  -- spec: the fields describe a complete message within the standard's ranges
   let wf := specWF st k m &&
     (match st with
      | .tlcp => true
-     | .dtlcp => h.fragOff == 0)
+     | .dtlcp => h.fragOff == 0 &&
+        (match menc with
+         | some data => h.fragLen == 0 || h.fragLen == data.length - 12
+         | none => h.fragLen == 0))
   let obsEnc := (kv ot "enc").getD ""
   let obsDec := (kv ot "dec").getD ""
   let spec : Option (String × String) :=
